@@ -31,7 +31,10 @@ extern int mpt_config_environ(MPT_INTERFACE(config) *conf, const char *pattern, 
 	const char *var;
 	int accept = 0;
 	
-	if (!env) env = environ;
+	/* the process environment may be missing altogether (clearenv) */
+	if (!env && !(env = environ)) {
+		return 0;
+	}
 	if (!sep) sep = '_';
 	if (!pattern) pattern = "mpt_*";
 	
